@@ -15,6 +15,8 @@ pub enum Profile {
     Uniform,
     /// a few centres (from the data seed) plus small noise
     Clustered,
+    /// one blob of uniform points far from the origin (splits through the origin are very unbalanced)
+    OffCentre,
     /// one vector (from the data seed) repeated
     Constant,
     /// k distinct vectors repeated
@@ -43,6 +45,7 @@ impl Profile {
             Profile::Lattice
                 | Profile::Uniform
                 | Profile::Clustered
+                | Profile::OffCentre
                 | Profile::Constant
                 | Profile::KDistinct
                 | Profile::ZeroMixed
@@ -51,7 +54,7 @@ impl Profile {
         )
     }
     pub fn degenerate(self) -> bool {
-        !matches!(self, Profile::Lattice | Profile::Uniform | Profile::Clustered)
+        !matches!(self, Profile::Lattice | Profile::Uniform | Profile::Clustered | Profile::OffCentre)
     }
 }
 
@@ -125,6 +128,11 @@ pub fn gen_vector(spec: &VecSpec, dim: usize, data_seed: u64) -> Vec<f32> {
                     let c = r.below(k);
                     let mut cr = Rng::new(crate::util::mix(data_seed, c));
                     (0..dim).map(|_| uniform(&mut cr) * 4.0 + 0.01 * uniform(&mut r)).collect()
+                }
+                Profile::OffCentre => {
+                    let axis = shared.below(dim as u64) as usize;
+                    let off = 1.5 + 3.0 * shared.unit_f32();
+                    (0..dim).map(|i| uniform(&mut r) + if i == axis { off } else { 0.0 }).collect()
                 }
                 Profile::Constant => (0..dim).map(|_| lattice(&mut shared)).collect(),
                 Profile::KDistinct => {
@@ -255,6 +263,10 @@ pub struct Cfg {
     pub placement: String,
     /// use Writer::set_tmpdir(private dir)
     pub private_tmpdir: bool,
+    /// keep one Writer instance per index for the whole run (an application holding its Writer across
+    /// transactions) instead of creating one per call
+    #[serde(default)]
+    pub reuse_writer: bool,
     /// number of query vectors of the query battery
     pub queries: usize,
     pub query_seed: u64,
@@ -305,6 +317,9 @@ pub struct GenKnobs {
     pub pool_pct: u64,
     pub dim1_pct: u64,
     pub bits_pct: u64,
+    pub many_trees_pct: u64,
+    pub mid_run_pct: u64,
+    pub offcentre_pct: u64,
 }
 
 impl GenKnobs {
@@ -326,11 +341,22 @@ impl GenKnobs {
             pool_pct: 0,
             dim1_pct: 5,
             bits_pct: 10,
+            many_trees_pct: 10,
+            mid_run_pct: 10,
+            offcentre_pct: 8,
         };
         match focus {
-            "C02" | "C03" | "C04" => {
+            "C02" | "C03" => {
                 k.accurate_only = true;
                 k.bad_call_pct = 0;
+            }
+            "C04" => {
+                k.accurate_only = true;
+                k.bad_call_pct = 0;
+                k.mid_run_pct = 70;
+                k.offcentre_pct = 60;
+                k.many_trees_pct = 40;
+                k.max_rounds = 3;
             }
             "C05" => k.bits_pct = 40,
             "C07" => {
@@ -338,6 +364,7 @@ impl GenKnobs {
                 k.metric_change_pct = 10;
             }
             "C13" => {
+                k.many_trees_pct = 60;
                 k.pool_pct = 100;
                 k.max_indexes = 1;
                 k.bad_call_pct = 0;
@@ -382,6 +409,11 @@ struct Shadow {
 
 /// Generate a history plan (engine H) for `focus` from `seed`.
 pub fn gen_history(seed: u64, focus: &str, thorough: bool) -> Plan {
+    gen_history_with(seed, focus, thorough, None)
+}
+
+/// Same, over a given set of indexes (continuation of a golden fixture).
+pub fn gen_history_with(seed: u64, focus: &str, thorough: bool, forced: Option<Vec<IndexCfg>>) -> Plan {
     let k = GenKnobs::for_focus(focus, thorough);
     let mut r = Rng::new(seed);
     let n_idx = 1 + r.below(k.max_indexes as u64) as usize;
@@ -402,14 +434,20 @@ pub fn gen_history(seed: u64, focus: &str, thorough: bool) -> Plan {
         indexes.push(IndexCfg { index, metric, dim });
     }
     indexes.sort_by_key(|c| c.index);
+    if let Some(f) = forced {
+        indexes = f;
+    }
 
     let big = r.chance(k.big_run_pct, 100) || k.min_items_first > 0;
+    let mid = !big && r.chance(k.mid_run_pct, 100);
     // per-index: profile, id universe, constant capacity
     let mut profiles = Vec::new();
     let mut universes: Vec<Vec<u32>> = Vec::new();
     let mut caps: Vec<Option<Option<usize>>> = Vec::new();
     for ic in &indexes {
-        let profile = if k.degenerate_only {
+        let profile = if !k.degenerate_only && r.chance(k.offcentre_pct, 100) {
+            Profile::OffCentre
+        } else if k.degenerate_only {
             *r.pick(&[
                 Profile::Constant,
                 Profile::KDistinct,
@@ -438,7 +476,7 @@ pub fn gen_history(seed: u64, focus: &str, thorough: bool) -> Plan {
             ])
         };
         profiles.push(profile);
-        let usize_n = if big { 300 + r.below(if thorough { 1700 } else { 500 }) as usize } else { 4 + r.below(60) as usize };
+        let usize_n = if big { 300 + r.below(if thorough { 1700 } else { 500 }) as usize } else if mid { 40 + r.below(120) as usize } else { 4 + r.below(60) as usize };
         let uni: Vec<u32> = match r.below(10) {
             0..=5 => (0..usize_n as u32).collect(),
             6..=7 => {
@@ -482,6 +520,8 @@ pub fn gen_history(seed: u64, focus: &str, thorough: bool) -> Plan {
             200 + r.below(400) as usize
         } else if big {
             r.below(150) as usize
+        } else if mid {
+            if round == 0 { 30 + r.below(120) as usize } else { r.below(60) as usize }
         } else {
             r.below(k.max_ops_per_round as u64 + 1) as usize
         };
@@ -590,10 +630,14 @@ pub fn gen_history(seed: u64, focus: &str, thorough: bool) -> Plan {
                     Some(c) => c,
                     None => gen_split_after(&mut r, &k, dim),
                 };
-                let n_trees = match r.below(10) {
-                    0..=3 => None,
-                    4..=8 => Some(1 + r.below(6) as usize),
-                    _ => Some(1 + r.below(20) as usize),
+                let n_trees = if r.chance(k.many_trees_pct, 100) {
+                    Some(2 + r.below(19) as usize)
+                } else {
+                    match r.below(10) {
+                        0..=3 => None,
+                        4..=9 => Some(1 + r.below(6) as usize),
+                        _ => unreachable!(),
+                    }
                 };
                 let mem = if r.chance(k.mem_hint_pct, 100) {
                     let item_bytes = 1 + 8 + 4 * dim;
@@ -648,6 +692,7 @@ pub fn gen_history(seed: u64, focus: &str, thorough: bool) -> Plan {
             yield_every: *r.pick(&[1u64, 4, 16]),
             placement: r.pick(&["dense", "page", "straddle", "lmdb"]).to_string(),
             private_tmpdir: r.chance(1, 3),
+            reuse_writer: r.chance(1, 2),
             queries: 3 + r.below(4) as usize,
             query_seed: r.next(),
         },
